@@ -41,7 +41,7 @@ class CallMixin(object):
                 if n == 'fresh':
                     r = self.ev(node.args[0], st)
                     old_alloc = self.heap_arrays(st.old, self.alloc_key)['']
-                    return mk_bool(z3.And(r.t != null, z3.Not(z3.Select(old_alloc, r.t))))
+                    return mk_bool(z3.And(r.t != null, z3.Not(z3.Select(old_alloc, r.t)), self.allocated(st, r.t)))
             if n in ('all', 'any') and node.args and isinstance(node.args[0], ast.GeneratorExp):
                 raise OutsideSubset('all/any over a generator in code')
         fv = self.ev(f, st)
@@ -59,8 +59,8 @@ class CallMixin(object):
         for k in node.keywords:
             if k.arg is None:
                 sv = self.ev(k.value, st)
-                if isinstance(sv, dict):
-                    kwargs.update(sv)
+                if isinstance(sv, PyDict):
+                    kwargs.update(sv.items)
                 else:
                     raise OutsideSubset('**kwargs of symbolic shape')
             else:
@@ -111,7 +111,12 @@ class CallMixin(object):
             if n.startswith('func:') and n[5:] in ('navigate_one', 'navigate_any', 'navigate_many') and self.reg.function(n[5:]) is None:
                 return PyNav({'navigate_one': 'one', 'navigate_any': 'one', 'navigate_many': 'many'}[n[5:]], args[0])
             if n.startswith('func:'):
-                ct = self.reg.function(n[5:])
+                if '.' in n:
+                    mod, base = n[5:].rsplit('.', 1)
+                    n = 'func:' + base
+                else:
+                    mod = self.cur_module
+                ct = self.reg.function(n[5:], module=mod)
                 if ct is None:
                     if n[5:] in self.reg.specfns:
                         return self.call_specfn(n[5:], args, kwargs, st)
@@ -313,6 +318,23 @@ class CallMixin(object):
         chain = z3.StringVal(nav.chain)
         if isinstance(h, PyVal):
             raise OutsideSubset('navigation from a verification-time value')
+        if (is_ref(h.sort) or h.sort == NONE or h.sort == VAL) and nav.kind == 'one' and filt == 0:
+            # single steps a contracts module tracks as ghost partner fields (Class.nav_<KL>_<rel>) are read from the heap
+            steps = nav.chain.split('.')
+            cur = coerce(h, RefT('Class'))
+            while steps:
+                key = self.reg.field_key('Class', 'nav_' + steps[0].replace('[', '_').replace(']', '').replace(',', '_').replace("'", '').replace(' ', ''))
+                if key is None:
+                    break
+                nxt = self.heap_get(st, key, cur.t)
+                cur = SV(RefT('Class'), z3.If(cur.t == null, null, nxt.t))
+                steps.pop(0)
+            if not steps:
+                return cur
+            if cur.t is not coerce(h, RefT('Class')).t:
+                nav = PyNav(nav.kind, cur, '.'.join(steps), None)
+                h = cur
+                chain = z3.StringVal(nav.chain)
         if is_ref(h.sort) or h.sort == NONE or h.sort == VAL:
             hv = coerce(h, RefT('Class')).t
             allf = z3.Function('u_nav_all', Ref, z3.StringSort(), z3.IntSort(), z3.SeqSort(Ref))
@@ -325,6 +347,11 @@ class CallMixin(object):
         if nav.kind == 'many':
             return SV(SeqT(RefT('Class')), seq)
         r = SV(RefT('Class'), z3.If(z3.Length(seq) > 0, nth(seq, 0), null))
+        if 'kind_of' in self.reg.uninterp and not self.spec_mode:
+            # A-NAV-KIND: a navigation ends in instances of the class named by its last step
+            last = nav.chain.rsplit('.', 1)[-1].split('[')[0]
+            kf = z3.Function('u_kind_of', Ref, z3.StringSort())
+            st.assume(z3.Or(r.t == null, kf(r.t) == z3.StringVal(last)))
         return r
 
     def find_helper(self, cls, name):
@@ -360,6 +387,12 @@ class CallMixin(object):
         env = {}
         names = ct.param_names()
         params = list(ct.params)
+        if params and params[-1][0].startswith('**'):
+            dstar = params.pop()
+            known = set(p[0] for p in params)
+            env[dstar[0][2:]] = PyDict((k, v) for k, v in kwargs.items() if k not in known)
+            kwargs = dict((k, v) for k, v in kwargs.items() if k in known)
+            names = names[:-1]
         if params and params[-1][0].startswith('*'):
             star = params.pop()
             env[star[0][1:]] = PyTuple(args[len(params):])
@@ -437,7 +470,20 @@ class CallMixin(object):
             result = fresh(rs, 'res_' + ct.qual.split('.')[-1]) if rs != NONE else NONE_V
         elif ct.kind == 'generator':
             result = fresh(SeqT(ct.yields), 'gen_' + ct.qual.split('.')[-1])
+        live_before = None if in_spec else self.qf_consistent(st)
         self.apply_post(ct, ct.ensures, env, old, st, result, exceptional=False, guard=guard)
+        if live_before and not self.qf_consistent(st):
+            # vacuity guard: a postcondition that contradicts what is known at the call site would make everything after it provable
+            raise OutsideSubset('the postcondition of %s contradicts the state at its call site (vacuous continuation)' % ct.qual)
+        if ct.ghost.get('kwargs_set_attrs') and result is not None:
+            # keyword arguments of an instance constructor become the attribute values of the new instance (any spelling: C10)
+            sa = self.reg.method(result.sort.cls, '__setattr__')
+            f = z3.Function('u_attr_value', Ref, z3.StringSort(), Val)
+            for k, v in env[ct.ghost['kwargs_set_attrs']].items.items():
+                if sa is not None:
+                    self.call_contract(sa, [result, mk_str(k), v], {}, st)
+                else:
+                    st.assume(f(result.t, z3.StringVal(k.upper())) == box(v).t)
         if result is None:
             return NONE_V
         self.assume_type_invariant(st, result)
@@ -456,6 +502,14 @@ class CallMixin(object):
                 if refs is None:
                     new = dict((suf, z3.Const(fresh_name('H.%s.%s' % (key, suf)), a.sort())) for suf, a in arrs.items())
                     # objects allocated before the call and not of interest keep... (whole-field modifies: no frame)
+                elif key in cex.fresh_only:
+                    new = dict((suf, z3.Const(fresh_name('H.%s.%s' % (key, suf)), a.sort())) for suf, a in arrs.items())
+                    alloc_now = self.heap_arrays(st, self.alloc_key)['']
+                    fr = z3.Const(fresh_name('fo'), Ref)
+                    keep = [z3.Select(new[suf], fr) == z3.Select(arrs[suf], fr) for suf in arrs]
+                    for r in refs:
+                        keep = [z3.Or(fr == r, k) for k in keep]
+                    st.assume(z3.ForAll([fr], z3.Implies(z3.Select(alloc_now, fr), z3.And(keep))))
                 else:
                     new = dict(arrs)
                     for r in refs:
@@ -688,6 +742,13 @@ class CallMixin(object):
             m = self.reg.method(v.sort.cls, '__reversed__')
             if m is not None:
                 return self.call_contract(m, [v], {}, st)
+        if isinstance(getattr(v, 'sort', None), SeqT):
+            r = fresh(v.sort, 'reversed')
+            n = z3.Length(v.t)
+            i = z3.Int(fresh_name('ri'))
+            st.assume(z3.Length(r.t) == n)
+            st.assume(z3.ForAll([i], z3.Implies(z3.And(0 <= i, i < n), nth(r.t, i) == nth(v.t, n - 1 - i))))
+            return r
         raise OutsideSubset('reversed of %s' % getattr(v, 'sort', None))
 
     def bi_zip(self, args, kwargs, st, node):
@@ -777,6 +838,17 @@ class CallMixin(object):
         v = args[0]
         return mk_bool(Val.is_VStr(v.t) if v.sort == VAL else z3.BoolVal(v.sort == STR))
 
+    def bi_is_ref(self, args, kwargs, st, node):
+        v = args[0]
+        return mk_bool(Val.is_VRef(v.t) if v.sort == VAL else z3.BoolVal(is_ref(v.sort)))
+
+    def bi_as_ref(self, args, kwargs, st, node):
+        v = args[0]
+        if is_ref(v.sort):
+            return v
+        cls = z3.simplify(args[1].t).as_string() if len(args) > 1 else 'Class'
+        return SV(RefT(cls), z3.If(Val.is_VRef(box(v).t), Val.rval(box(v).t), null))
+
     def bi_is_bool(self, args, kwargs, st, node):
         v = args[0]
         return mk_bool(Val.is_VBool(v.t) if v.sort == VAL else z3.BoolVal(v.sort == BOOL))
@@ -862,6 +934,10 @@ class CallMixin(object):
 
     def bi_is_digits(self, args, kwargs, st, node):
         return mk_bool(z3.StrToInt(coerce(args[0], STR).t) >= 0)
+
+    def bi_world(self, args, kwargs, st, node):
+        """world(): the one object that carries process-wide ghost state (event traces of module-level functions)"""
+        return SV(RefT('World'), z3.Const('the_world', Ref))
 
     def bi_is_none(self, args, kwargs, st, node):
         return mk_bool(py_eq(args[0], NONE_V))
